@@ -229,9 +229,11 @@ pub fn rand_settings(rng: &mut Rng, reg: &PortableRegistry, cfg: &SetCfg) -> Set
                 .map(|t| t.ty.type_params.iter().filter(|p| p.ty.is_some()).count())
                 .unwrap_or(0);
             // parameter names in the user's style or in the generator's own `_i` style
-            let gen_style = rng.chance(1, 4);
-            let names = if gen_style { ["_0", "_1", "_2", "_3"] } else { ["A", "B", "C", "D"] };
             let declared = if rng.chance(1, 2) { 0 } else { (np + rng.below(3)).saturating_sub(1).min(4) };
+            // the generator's own `_i` style only when every declared name can be replaced
+            // (a leftover `_i` in the target would be captured by the generics of the using item)
+            let gen_style = rng.chance(1, 3) && declared >= 1 && declared <= np;
+            let names = if gen_style { ["_0", "_1", "_2", "_3"] } else { ["A", "B", "C", "D"] };
             let src = if declared == 0 {
                 p.join("::")
             } else {
@@ -258,6 +260,16 @@ pub fn rand_settings(rng: &mut Rng, reg: &PortableRegistry, cfg: &SetCfg) -> Set
                 "::ext::Arr<::ext::Q<[B; 2]>, A>".into(),
             ];
             let mut tgt = rng.pick(&tgt_pool).clone();
+            if gen_style {
+                // only targets whose names are all declared
+                let used_max = ["A", "B", "C", "D"].iter().rposition(|n| {
+                    [",", ">", ";", ")"].iter().any(|e| tgt.contains(&format!("<{n}{e}")) || tgt.contains(&format!(" {n}{e}"))
+                        || tgt.contains(&format!("({n}{e}")) || tgt.contains(&format!("[{n}{e}")))
+                });
+                if used_max.map(|m| m >= declared).unwrap_or(false) {
+                    tgt = format!("::ext::Sub<{}>", ["A", "B", "C", "D"][..declared].iter().rev().cloned().collect::<Vec<_>>().join(", "));
+                }
+            }
             if gen_style {
                 // rename A..D in the target (whole identifiers only: they are followed by , > or ])
                 for (a, b) in [("A", "_0"), ("B", "_1"), ("C", "_2"), ("D", "_3")] {
